@@ -243,10 +243,10 @@ var specs = map[string]*CheckSpec{
 	},
 	"C05": {
 		ID: "C05", Patterns: []string{cmdPkg}, NeedHelper: true, Instrument: true,
-		Runs: []HarnessRun{concRun("ZZ_C05", "ZZ_C05N", "ZZ_C05Desc", "", 1, 2, true, []int{0, 1, 2, 3, 4, 5, 7}, []int{0, 3}),
+		Runs: []HarnessRun{concRun("ZZ_C05", "ZZ_C05N", "ZZ_C05Desc", "", 1, 2, true, []int{0, 1, 2, 3, 4, 5, 7, 9}, []int{0, 3}),
 			concRun("ZZ_C05Fresh", "ZZ_C05FreshN", "ZZ_C05FreshDesc", "", 1, 1, true, nil, []int{1})},
 		Bounds: func(tier string) map[string]any {
-			b := concBounds("2 (thorough: also 3) concurrent writes (create on a locked account, create from world only, create whose client gives up at an arbitrary moment, set/delete metadata, revert), then stop-or-crash, restart on the same store and one more create", true)(tier)
+			b := concBounds("2 (thorough: also 3) concurrent writes (create on a locked account, create from world only, create whose client gives up at an arbitrary moment, a dry-run create among the real writes, set/delete metadata, revert), then stop-or-crash, restart on the same store and one more create", true)(tier)
 			b["from_empty"] = "6 staged histories on a ledger that starts empty (1-2 concurrent writes per stage, stop-or-crash and restart between stages, including restarts while the log holds no transaction); budget 1 in both tiers"
 			return b
 		},
@@ -256,7 +256,7 @@ var specs = map[string]*CheckSpec{
 	},
 	"C06": {
 		ID: "C06", Patterns: []string{cmdPkg, batchPkg}, NeedHelper: true, Instrument: true,
-		Runs: []HarnessRun{concRun("ZZ_C06", "ZZ_C06N", "ZZ_C06Desc", "", 1, 2, true, []int{0, 1, 2, 3, 6, 7, 10, 11, 14, 16}, []int{0, 6}),
+		Runs: []HarnessRun{concRun("ZZ_C06", "ZZ_C06N", "ZZ_C06Desc", "", 1, 2, true, []int{0, 1, 2, 3, 6, 7, 10, 11, 14, 16, 18}, []int{0, 6}),
 			{Pkg: batchPkg, Dir: "internal/engine/utils/batching", Mod: "ledger", Fn: "ZZ_C06Batch", Shapes: rangeShapes(18), Cfg: cmdCfg, Desc: harnessDesc(batchPkg, "ZZ_C06BatchDesc", "batch composition:"), CanaryShapes: []int{3}}},
 		Bounds: func(tier string) map[string]any {
 			b := concBounds("2 (thorough: also 3) concurrent writes with distinct markers (one of them possibly abandoned by its client at an arbitrary moment), with and without an injectable InsertLogs failure", true)(tier)
@@ -403,14 +403,19 @@ var specs = map[string]*CheckSpec{
 		ID: "C13", Patterns: []string{cmdPkg}, NeedHelper: true,
 		Runs:   []HarnessRun{commandRun("ZZ_C13", countShapes(cmdPkg, "ZZ_C13N"), harnessDesc(cmdPkg, "ZZ_C13Desc", ""), []int{0, 3})},
 		Bounds: func(tier string) map[string]any {
-			return map[string]any{"log_kinds": "every write kind x target type the commander can emit (7)", "ids_amounts": "symbolic (transaction ids < 2^62), plus three concrete ids above 2^53 (not representable as float64)", "metadata": "one entry, nil, empty, two entries with an empty value (arbitrary Unicode keys/values are outside the claim)", "timestamps": "concrete (RFC3339Nano formatting of arbitrary instants is outside the claim)"}
+			return map[string]any{"log_kinds": "every write kind x target type the commander can emit (7)", "ids_amounts": "symbolic (transaction ids < 2^62), plus three concrete ids above 2^53 (not representable as float64)", "metadata": "one entry, nil, empty, two entries with an empty value (arbitrary Unicode keys/values are outside the claim)", "after_preview": "each write kind also right after a preview of the same request", "timestamps": "concrete (RFC3339Nano formatting of arbitrary instants is outside the claim)"}
 		},
 		Assumptions: cmdStubs, Encoded: append([]string{"ledger.HydrateLog", "ledger.(*ChainedLog).UnmarshalJSON", "ledger.(*SetMetadataLogPayload).UnmarshalJSON", "ledger.LogType.MarshalJSON/UnmarshalJSON", "ledger.LogTypeFromString", "ledger.Time.MarshalJSON/UnmarshalJSON"}, cmdEncoded...),
 		Rule: "each log the write path persists is encoded, decoded, re-encoded (text equality as ropes) and its hash recomputed from the round-tripped entry and the predecessor",
 	},
 	"C14": {
 		ID: "C14", Patterns: []string{cmdPkg, v1Pkg, v2Pkg}, NeedHelper: true,
-		Runs: []HarnessRun{commandRun("ZZ_C14", rangeShapes(7), kindDesc, []int{0, 3}),
+		Runs: []HarnessRun{commandRun("ZZ_C14", rangeShapes(14), func(s *Session, i int) string {
+			if i >= 7 {
+				return kindDesc(s, i-7) + ", preview of a request whose idempotency key was already used"
+			}
+			return kindDesc(s, i)
+		}, []int{0, 3, 7}),
 			{Pkg: v2Pkg, Dir: "internal/api/v2", Mod: "ledger", Fn: "ZZ_C14Flag", Shapes: rangeShapes(12), Cfg: cmdCfg, Desc: harnessDesc(v2Pkg, "ZZ_C14FlagDesc", "v2"), CanaryShapes: []int{0, 3}},
 			{Pkg: v1Pkg, Dir: "internal/api/v1", Mod: "ledger", Fn: "ZZ_C14Flag", Shapes: rangeShapes(12), Cfg: cmdCfg, Desc: harnessDesc(v1Pkg, "ZZ_C14FlagDesc", "v1"), CanaryShapes: []int{0, 3}}},
 		Bounds: func(tier string) map[string]any {
@@ -420,12 +425,21 @@ var specs = map[string]*CheckSpec{
 		},
 		Assumptions: append([]string{"the spellings that put a request in dry-run mode are the documented boolean (true in any letter case, 1) and the legacy yes (any case) both API versions accept at the pinned commit"}, cmdStubs...),
 		Encoded:     append([]string{"v1.getCommandParameters", "v2.getCommandParameters", "net/url.ParseQuery (interpreted)"}, cmdEncoded...),
-		Rule: "two-world differential per write kind: [preview, real, later real] against [real, later real] from the same symbolic pre-state; responses, ids, log sequence and published events compared; plus, per flag length, Parameters.DryRun compared with the spelling predicate for arbitrary bytes",
+		Rule: "two-world differential per write kind: [preview, real, later real] against [real, later real] from the same symbolic pre-state; responses, ids, log sequence and published events compared; the same with an idempotency key that was already used ([real w(K), preview w(K)] against [real w(K), real w(K)]); plus, per flag length, Parameters.DryRun compared with the spelling predicate for arbitrary bytes",
 	},
 	"C16": {
-		ID: "C16", Patterns: []string{cmdPkg}, NeedHelper: true,
-		Runs:   []HarnessRun{commandRun("ZZ_C16", rangeShapes(21), kindModeDesc, []int{0, 9})},
-		Bounds: cmdBounds, Assumptions: append([]string{"the commander publishes through the real bus.ledgerMonitor into a recording message.Publisher; publish.NewMessage is modelled (payload = JSON model of the real EventMessage; uuid and otel context constant)"}, cmdStubs...), Encoded: append([]string{"bus.(*ledgerMonitor).CommittedTransactions/SavedMetadata/RevertedTransaction/DeletedMetadata/publish", "bus.NewEventCommittedTransactions/NewEventSavedMetadata/NewEventRevertedTransaction/NewEventDeletedMetadata"}, cmdEncoded...),
+		ID: "C16", Patterns: []string{cmdPkg}, NeedHelper: true, Instrument: true,
+		Runs: []HarnessRun{commandRun("ZZ_C16", rangeShapes(21), kindModeDesc, []int{0, 9}),
+			concRun("ZZ_C16Conc", "ZZ_C16ConcN", "ZZ_C16ConcDesc", "", 1, 2, false, nil, []int{0})},
+		Bounds: func(tier string) map[string]any {
+			b := cmdBounds(tier)
+			p := 1
+			if tier == "thorough" {
+				p = 2
+			}
+			b["abandoned_clients"] = fmt.Sprintf("4 scenarios of 1-2 concurrent writes whose client may give up (context cancelled) at an arbitrary moment; every schedule with at most %d pre-emption(s); at rest persisted entries and published events are in bijection", p)
+			return b
+		}, Assumptions: append([]string{"the commander publishes through the real bus.ledgerMonitor into a recording message.Publisher; publish.NewMessage is modelled (payload = JSON model of the real EventMessage; uuid and otel context constant)"}, cmdStubs...), Encoded: append([]string{"bus.(*ledgerMonitor).CommittedTransactions/SavedMetadata/RevertedTransaction/DeletedMetadata/publish", "bus.NewEventCommittedTransactions/NewEventSavedMetadata/NewEventRevertedTransaction/NewEventDeletedMetadata"}, cmdEncoded...),
 		Rule: "per write kind x {real, preview, repeated through an idempotency key}: every published message is decoded from its JSON payload and matched against a persisted log (ids symbolic), every persisted log has an event",
 	},
 	"C03": {
